@@ -397,3 +397,8 @@ def rules(ctx):
     op_clone(ctx)
     from . import common_alias as _CA
     _CA.shallow_copy_mutation(ctx, "C12.shallow-copy", ("compilers/xunitary.py", "compilers/xcov.py", "compilers/xstrict.py", "compilers/gbs.py", "compilers/tdm.py", "compilers/compiler.py", "tdm/utils.py"))
+    # the X-series compilers are built on GBS.compile and group_operations
+    from . import c04 as _c04
+    ctx.shared(_c04.gbs_guards)
+    ctx.shared(_c04.partition)
+    ctx.shared(_c04.register_index)
